@@ -111,6 +111,9 @@ func (b *calBackend) QueryCalendarObjects(ctx context.Context, path string, q *c
 }
 func (b *calBackend) PutCalendarObject(ctx context.Context, path string, cal *ical.Calendar, opts *caldav.PutCalendarObjectOptions) (*caldav.CalendarObject, error) {
 	b.log.add("PutCalendarObject %s", hx(path))
+	if cal == nil {
+		b.log.add("NilObject")
+	}
 	b.lastPut, b.lastPutOpt = cal, opts
 	if b.failWith != nil {
 		return nil, b.failWith
@@ -208,6 +211,9 @@ func (b *cardBackend) QueryAddressObjects(ctx context.Context, path string, q *c
 }
 func (b *cardBackend) PutAddressObject(ctx context.Context, path string, card vcard.Card, opts *carddav.PutAddressObjectOptions) (*carddav.AddressObject, error) {
 	b.log.add("PutAddressObject %s", hx(path))
+	if card == nil {
+		b.log.add("NilObject")
+	}
 	b.lastPut, b.lastPutOpt = card, opts
 	if b.failWith != nil {
 		return nil, b.failWith
